@@ -76,7 +76,7 @@ def main():
                 "replay_cmd_template": "./check --replay {path}",
                 "engine": eng,
                 "level_claimed": {"category": cat, "text": text, "design_ref": f"DESIGN.md section 7 / {pid}"},
-                "level_note": note,
+                "level_note": note + "  Extended in the seeded-change rounds 9-22 (DESIGN.md 12.8, 12.9): query schedules (sparse observation), positional and iterable argument forms, large / dense / mixed-label inputs, objects and processes with a past, per-sub-population rate bounds for the listed findings; validated against 265 seeded changes and 57 behaviour-preserving refactorings.",
                 "technique": tech,
             })
     na = [{"property_id": p, "reason": NA[p]} for p in props if p in NA]
